@@ -1,16 +1,38 @@
-(* C04 — the mesh is the boundary of the solid, to within the resolution.
+(* C04 — the mesh is the boundary of the solid, to within the resolution.  Statements only.
 
-   What is proved here is the part of the argument that is logic rather than geometry of the
-   particular meshers: pruning never discards surface.  A cell is given the type EMPTY / FILLED
-   only from an interval result; if interval evaluation is sound (C02) such a cell contains no
-   zero of the field and every point of it has the sign of the interval.  Hence every zero of
-   the field inside the region lies in a leaf cell that was classified AMBIGUOUS, which is where
-   (and only where) the meshers place vertices; C19 keeps simplex / hybrid vertices inside their
-   cell.  The winding-number statement itself is decided by the oracle of check/props/c04.py. *)
-From Coq Require Import Reals Lra List.
-Local Open Scope R_scope.
+   Proved part.
+   (a) Pruning never discards surface (Render/Pruning.v): a cell is given the type EMPTY / FILLED
+       only from an interval result; if interval evaluation is sound (C02) such a cell contains
+       no zero of the field and every point of it has the sign of the interval.  Hence every zero
+       of the field inside the region lies in a leaf cell that was classified AMBIGUOUS, which is
+       where (and only where) the meshers place vertices.
+   (b) Dual contouring on a UNIFORM grid (Render/DCGrid.v = Dual<3>::walk + DCMesher::load with
+       libfive's run-time patch tables; proofs in Render/DCBoundary.v): the mesh is exactly the
+       boundary of the set of inside lattice points - one quad (two triangles) per lattice edge
+       whose ends differ, over one vertex of each of the four cells around that edge; every
+       lattice path from an inside to an outside point crosses an odd number of quads and every
+       path between points on the same side an even number; the quads are wound so that
+       right-hand normals point from the inside to the outside lattice point.
+   (c) Over R^3 (grid origin og, spacing h): a sign-changing lattice edge of a field continuous
+       along it carries a zero of the field, that zero lies in the four closed cells around the
+       edge, hence every quad vertex that lies in its own cell (C19 for simplex / hybrid meshers;
+       NOT guaranteed by dual contouring, an explicit hypothesis here) is within sqrt 3 * h
+       (Euclidean, the cell diagonal) of the zero set.
+   (d) No converse from corner signs: a ball thinner than the grid is invisible; this is why (a)
+       and not the corner signs bounds the surface from the other side.
+   Oracle-only part (check/props/c04.py): the winding-number statement for real renders, on
+   adaptive octrees, with real vertex positions. *)
+From Coq Require Import Reals Lra List ZArith Bool.
+From LF Require Import Render.Pruning Render.DCGrid Render.DCGridSem Render.DCBoundary.
+From LF Require Render.DCBoundaryCont.
+Import ListNotations.
+
+(* ------------------------------------------------------------------ *)
+(* (a) pruning                                                         *)
+(* ------------------------------------------------------------------ *)
 
 Section Pruning.
+  Local Open Scope R_scope.
   Variable P : Type.                      (* points *)
   Variable f : P -> R.                    (* the field *)
   Variable cell : Type.
@@ -18,32 +40,227 @@ Section Pruning.
   Variable lo hi : cell -> R.             (* interval result of the cell *)
   Hypothesis sound : forall c p, inc p c -> lo c <= f p <= hi c.     (* C02 for this cell *)
 
-  Inductive state := Empty | Filled | Ambiguous.
-  (* Interval::state *)
-  Definition classify (c : cell) : state :=
-    if Rlt_dec (hi c) 0 then Filled else if Rlt_dec 0 (lo c) then Empty else Ambiguous.
+  (* Interval::state of the cell's interval result: Filled if hi < 0, Empty if 0 < lo, else
+     Ambiguous (Render/Pruning.v) *)
+  Local Notation classify := (Pruning.classify lo hi).
 
+  (* a cell pruned as FILLED is inside everywhere, a cell pruned as EMPTY is outside everywhere:
+     no piece of the surface is ever thrown away with a pruned cell *)
   Theorem C04_pruned_cells_have_no_surface : forall c p, inc p c ->
     (classify c = Filled -> f p < 0) /\ (classify c = Empty -> 0 < f p).
-  Proof.
-    intros c p Hp. pose proof (sound c p Hp) as [H1 H2]. unfold classify.
-    destruct (Rlt_dec (hi c) 0); [split; intros; [lra | discriminate]|].
-    destruct (Rlt_dec 0 (lo c)); split; intros; try discriminate; lra.
-  Qed.
+  Proof. exact (pruned_cells_have_no_surface P f cell inc lo hi sound). Qed.
 
+  (* every zero of the field lies in a cell that is kept for meshing *)
   Theorem C04_surface_only_in_ambiguous_cells : forall c p, inc p c -> f p = 0 -> classify c = Ambiguous.
-  Proof.
-    intros c p Hp Hz. destruct (C04_pruned_cells_have_no_surface c p Hp) as [A B].
-    destruct (classify c) eqn:E; [specialize (B eq_refl); lra | specialize (A eq_refl); lra | reflexivity].
-  Qed.
+  Proof. exact (surface_only_in_ambiguous_cells P f cell inc lo hi sound). Qed.
 
   (* a volume tree (acceleration structure) that was built from sound intervals prunes soundly too *)
   Theorem C04_vol_tree_prune_sound : forall (big small : cell),
     (forall p, inc p small -> inc p big) -> classify big <> Ambiguous ->
     forall p, inc p small -> (classify big = Filled -> f p < 0) /\ (classify big = Empty -> 0 < f p).
-  Proof. intros big small Hsub _ p Hp. apply C04_pruned_cells_have_no_surface. apply Hsub; exact Hp. Qed.
+  Proof. exact (vol_tree_prune_sound P f cell inc lo hi sound). Qed.
 End Pruning.
 
 Print Assumptions C04_pruned_cells_have_no_surface.
 Print Assumptions C04_surface_only_in_ambiguous_cells.
 Print Assumptions C04_vol_tree_prune_sound.
+
+(* ------------------------------------------------------------------ *)
+(* (b) the uniform-grid dual-contouring mesh is the lattice boundary   *)
+(* ------------------------------------------------------------------ *)
+
+(* ONE QUAD PER BOUNDARY EDGE.  For every inside / outside assignment [ins] of the lattice
+   points, every diagonal choice d and every lattice edge (axis A, start p): triangles are
+   emitted iff the two ends differ in [ins], then exactly two; their vertices are (cell, patch)
+   pairs with a valid patch index whose cells are among the four cells p - bits o,
+   o = 0, Q, R, Q + R, around the edge, and each of these four cells contributes a vertex.
+   Hence the mesh has two triangles per sign-changing edge listed in E; for a finite solid S,
+   2 * (number of lattice edges joining S to its complement). *)
+Theorem C04_dc_quads_are_boundary_edges :
+  (forall ins d A p, is_axis A = true ->
+     (quad ins d A p <> [] <-> sign_change ins (A, p) = true) /\
+     length (quad ins d A p) = (if sign_change ins (A, p) then 2 else 0)%nat /\
+     (forall v, In v (mesh_verts (quad ins d A p)) ->
+        exists o, In o [0; Qax A; Rax A; Qax A + Rax A] /\ fst v = psub p (bits o) /\ 0 <= snd v) /\
+     (sign_change ins (A, p) = true ->
+        forall o, In o [0; Qax A; Rax A; Qax A + Rax A] ->
+        exists k, 0 <= k /\ In (psub p (bits o), k) (mesh_verts (quad ins d A p))))%Z /\
+  (forall ins diag E, (forall e, In e E -> is_axis (fst e) = true) ->
+     length (dc_mesh ins diag E) = 2 * length (filter (sign_change ins) E)) /\
+  (forall ins diag E, covers ins E -> (forall e, In e E -> sign_change ins e = true) ->
+     length (dc_mesh ins diag E) = 2 * length E) /\
+  (forall S diag, length (dc_mesh (ins_of S) diag (edges_of S)) = 2 * length (edges_of S)).
+Proof. exact quads_are_boundary_edges. Qed.
+
+(* [covers] alone (DCGrid.v) does not force E to list ONLY sign-changing edges, so the count is
+   2 * length E only with that extra hypothesis: one filled point, its 6 edges and a spare one *)
+Theorem C04_dc_covers_allows_spare_edges :
+  let E := (1, (5, 5, 5))%Z :: one_E in
+  covers one_ins E /\ forall diag, length (dc_mesh one_ins diag E) <> 2 * length E.
+Proof. exact covers_allows_spare_edges. Qed.
+
+(* THE MESH SEPARATES INSIDE FROM OUTSIDE, at lattice resolution.  A lattice path is a start
+   point p and unit steps (axis, forward?).  The number of its steps that pass through a quad of
+   the mesh equals the number of steps whose ends differ in [ins]; it is odd iff the two ends of
+   the path differ in [ins].  So a path from an inside to an outside point crosses the mesh
+   (at least once, an odd number of times), a closed path an even number of times.  The crossed
+   quads are quads of [dc_mesh ins diag E] for every E that covers the sign-changing edges. *)
+Theorem C04_dc_separates_inside_from_outside :
+  (forall ins diag p l, valid_path l ->
+     crossings ins p l = quads_crossed ins diag p l /\
+     Nat.odd (quads_crossed ins diag p l) = xorb (ins p) (ins (path_end p l)) /\
+     (ins p = true -> ins (path_end p l) = false -> 1 <= quads_crossed ins diag p l) /\
+     (path_end p l = p -> Nat.even (quads_crossed ins diag p l) = true)) /\
+  (forall ins E p l e, covers ins E -> valid_path l ->
+     In e (path_edges p l) -> sign_change ins e = true ->
+     In e E /\ forall diag t, In t (quad ins (diag e) (fst e) (snd e)) -> In t (dc_mesh ins diag E)).
+Proof. exact dc_separates. Qed.
+
+(* CONSISTENT OUTWARD ORIENTATION.  [tri_normal t] is the cross product (o_b - o_a) x (o_c - o_a)
+   of the cell origins of the triangle t = (a, b, c) (cell origins differ from cell centres by a
+   constant, so this is the normal of the triangle of cell centres).  For both triangles of the
+   quad of the edge (A, p) and both diagonals it is + e_A when the inside end is p and - e_A
+   when the inside end is p + e_A: it always points from the inside to the outside lattice point
+   (counter-clockwise seen from outside, libfive's outward normals, along increasing f). *)
+Theorem C04_dc_orientation : forall ins d A p t,
+  is_axis A = true -> In t (quad ins d A p) ->
+  (ins p = true /\ ins (padd p (bits A)) = false /\ tri_normal t = bits A /\ winding_sign A t = 1%Z) \/
+  (ins p = false /\ ins (padd p (bits A)) = true /\ tri_normal t = pneg (bits A) /\ winding_sign A t = (-1)%Z).
+Proof. exact dc_orientation. Qed.
+
+(* ------------------------------------------------------------------ *)
+(* (c) the lattice embedded in R^3                                     *)
+(* ------------------------------------------------------------------ *)
+
+Local Open Scope R_scope.
+
+(* A SIGN-CHANGING EDGE CARRIES A ZERO.  [pos h og p] = og + h p is the position of the lattice
+   point p, [edge_pt h og A p t] = pos p + t h e_A, t in [0, 1], the lattice edge.  If the field
+   is continuous along the edge and strictly negative at one end and strictly positive at the
+   other, it vanishes somewhere on the edge; in terms of the mesher's sign data: if the corner
+   classification [ins] is strictly right at both ends ([sign_at]: FILLED means f < 0, EMPTY
+   means 0 < f) and the edge changes sign in [ins]. *)
+Theorem C04_sign_change_has_zero :
+  (forall (f : R3 -> R) h og A p,
+     is_axis A = true ->
+     (forall t, 0 <= t <= 1 -> continuity_pt (fun s => f (edge_pt h og A p s)) t) ->
+     (f (pos h og p) < 0 < f (pos h og (padd p (bits A))) \/
+      f (pos h og (padd p (bits A))) < 0 < f (pos h og p)) ->
+     exists t, 0 <= t <= 1 /\ f (edge_pt h og A p t) = 0) /\
+  (forall ins (f : R3 -> R) h og A p,
+     is_axis A = true -> edge_continuous f h og A p ->
+     sign_at ins f h og p -> sign_at ins f h og (padd p (bits A)) ->
+     sign_change ins (A, p) = true ->
+     exists t, 0 <= t <= 1 /\ f (edge_pt h og A p t) = 0).
+Proof. split; [exact sign_change_has_zero | exact sign_change_edge_has_zero]. Qed.
+
+(* the continuity hypothesis is met on every lattice edge of every grid by every field that is
+   continuous on R^3 ([continuous_R3]: Coquelicot's [continuous] at every point, product topology) *)
+Theorem C04_continuous_fields_qualify : forall f : R3 -> R,
+  DCBoundaryCont.continuous_R3 f -> forall h og A p, edge_continuous f h og A p.
+Proof. exact DCBoundaryCont.continuous_edge_continuous. Qed.
+
+(* EVERY MESH VERTEX IS WITHIN ONE CELL OF THE SURFACE.  [in_cell h og c x]: x lies in the closed
+   cube of side h with origin pos c.  (1) The whole lattice edge lies in each of the four cells
+   around it.  (2) When a quad is emitted, one zero z of the field lies in the cell of every
+   vertex of the quad.  (3) Two points of one cell are at most sqrt 3 * h apart (Euclidean).
+   (4) So for any placement [vpos] of the vertices, every vertex of the mesh that lies in its
+   own cell is within sqrt 3 * h of a zero of the field lying in that same cell. *)
+Theorem C04_vertices_near_surface :
+  (forall h og A p o t, 0 <= h -> is_axis A = true ->
+     In o [0; Qax A; Rax A; Qax A + Rax A]%Z -> 0 <= t <= 1 ->
+     in_cell h og (psub p (bits o)) (edge_pt h og A p t)) /\
+  (forall ins (f : R3 -> R) h og d A p,
+     0 <= h -> is_axis A = true -> edge_continuous f h og A p ->
+     sign_at ins f h og p -> sign_at ins f h og (padd p (bits A)) ->
+     quad ins d A p <> [] ->
+     exists z, f z = 0 /\ (exists t, 0 <= t <= 1 /\ z = edge_pt h og A p t) /\
+               forall v, In v (mesh_verts (quad ins d A p)) -> in_cell h og (fst v) z) /\
+  (forall h og c x y, 0 <= h -> in_cell h og c x -> in_cell h og c y -> dist x y <= sqrt 3 * h) /\
+  (forall ins (f : R3 -> R) h og diag E (vpos : vertex -> R3),
+     0 <= h -> (forall e, In e E -> is_axis (fst e) = true) ->
+     (forall A p, is_axis A = true -> edge_continuous f h og A p) ->
+     (forall p, sign_at ins f h og p) ->
+     forall v, In v (mesh_verts (dc_mesh ins diag E)) -> in_cell h og (fst v) (vpos v) ->
+       exists z, f z = 0 /\ in_cell h og (fst v) z /\ dist (vpos v) z <= sqrt 3 * h).
+Proof.
+  split; [exact edge_in_cells|]. split; [exact quad_cells_meet_surface|].
+  split; [exact cell_diameter | exact mesh_vertices_near_surface].
+Qed.
+
+(* ------------------------------------------------------------------ *)
+(* (d) no converse from corner signs                                   *)
+(* ------------------------------------------------------------------ *)
+
+(* A FEATURE THINNER THAN THE GRID IS INVISIBLE.  [ball_f] is the signed field of the ball of
+   radius 1/4 centred in the unit cell at the origin: continuous on R^3, negative at the centre
+   of the cell and zero at a point of the cell, yet strictly positive at EVERY lattice point of
+   the unit grid, so that no lattice edge changes sign and the mesh is empty.  Corner signs
+   cannot show that a cell without vertices is free of surface; interval pruning (a) can. *)
+Theorem C04_thin_feature_invisible :
+  DCBoundaryCont.continuous_R3 ball_f /\
+  (forall x v, continuity (fun t => ball_f (radd x (rscale t v)))) /\
+  (forall h og A p, edge_continuous ball_f h og A p) /\
+  in_cell 1 O3R (0, 0, 0)%Z (/ 2, / 2, / 2) /\ ball_f (/ 2, / 2, / 2) < 0 /\
+  in_cell 1 O3R (0, 0, 0)%Z (3 / 4, / 2, / 2) /\ ball_f (3 / 4, / 2, / 2) = 0 /\
+  (forall p, 0 < ball_f (pos 1 O3R p)) /\ (forall p, sign_at ball_ins ball_f 1 O3R p) /\
+  (forall e, sign_change ball_ins e = false) /\
+  (forall diag E, dc_mesh ball_ins diag E = []).
+Proof. split; [exact DCBoundaryCont.ball_f_continuous | exact thin_feature_invisible]. Qed.
+
+(* ------------------------------------------------------------------ *)
+(* non-vacuity                                                         *)
+(* ------------------------------------------------------------------ *)
+
+Local Close Scope R_scope.
+Local Open Scope Z_scope.
+
+(* COMPUTED EXAMPLES.  The 2 x 1 x 1 block has 10 boundary edges and 20 triangles, two points
+   diagonal on a face 12 and 24.  A lattice path from the inside point (0,0,0) of the block to
+   the outside point (3,0,0) crosses 1 quad, one right through the block 2, a closed loop
+   through both points of the diagonal pair 4.  The quad on the +X side of the block has
+   normal +X, the one on the -X side -X. *)
+Theorem C04_boundary_examples :
+  (length (edges_of block_S) = 10%nat /\
+   forall d, length (dc_mesh (ins_of block_S) (fun _ => d) (edges_of block_S)) = (2 * length (edges_of block_S))%nat) /\
+  (length (edges_of diag_S) = 12%nat /\
+   forall d, length (dc_mesh (ins_of diag_S) (fun _ => d) (edges_of diag_S)) = (2 * length (edges_of diag_S))%nat) /\
+  (valid_path out_path /\ ins_of block_S (0, 0, 0) = true /\ path_end (0, 0, 0) out_path = (3, 0, 0) /\
+   ins_of block_S (3, 0, 0) = false /\ crossings (ins_of block_S) (0, 0, 0) out_path = 1%nat /\
+   forall d, quads_crossed (ins_of block_S) (fun _ => d) (0, 0, 0) out_path = 1%nat) /\
+  (ins_of block_S (-1, 0, 0) = false /\ path_end (-1, 0, 0) through_path = (2, 0, 0) /\
+   ins_of block_S (2, 0, 0) = false /\ crossings (ins_of block_S) (-1, 0, 0) through_path = 2%nat) /\
+  (valid_path loop_path /\ path_end (0, 0, 0) loop_path = (0, 0, 0) /\
+   path_points (0, 0, 0) loop_path =
+     [(0, 0, 0); (1, 0, 0); (1, 1, 0); (1, 1, 1); (0, 1, 1); (0, 0, 1); (0, 0, 0)] /\
+   crossings (ins_of diag_S) (0, 0, 0) loop_path = 4%nat /\
+   forall d, quads_crossed (ins_of diag_S) (fun _ => d) (0, 0, 0) loop_path = 4%nat) /\
+  (forall d, map tri_normal (quad (ins_of block_S) d 1 (1, 0, 0)) = [(1, 0, 0); (1, 0, 0)] /\
+             map tri_normal (quad (ins_of block_S) d 1 (-1, 0, 0)) = [(-1, 0, 0); (-1, 0, 0)]).
+Proof.
+  split; [exact block_boundary_edges|]. split; [exact diag_boundary_edges|].
+  split; [exact out_path_crossings|]. split; [exact through_path_crossings|].
+  split; [exact loop_path_crossings | exact block_orientation_example].
+Qed.
+
+(* THE GEOMETRIC HYPOTHESES ARE SATISFIABLE WITH SURFACE PRESENT.  The ball of radius 1/2 about
+   the origin on the unit grid ([sphere_f] = x^2 + y^2 + z^2 - 1/4): its corner classification is
+   [one_ins] (only the origin inside), the mesh has 12 triangles, and every mesh vertex, placed
+   at the centre of its cell, is within sqrt 3 of a point of the sphere lying in that cell. *)
+Theorem C04_geometric_example :
+  (forall p, sign_at one_ins sphere_f 1 O3R p) /\
+  (forall diag, length (dc_mesh one_ins diag one_E) = 12%nat) /\
+  (forall diag v, In v (mesh_verts (dc_mesh one_ins diag one_E)) ->
+     exists z, sphere_f z = 0%R /\ in_cell 1 O3R (fst v) z /\ (dist (centre (fst v)) z <= sqrt 3)%R).
+Proof. split; [exact sphere_signs|]. split; [exact one_mesh_size | exact sphere_example]. Qed.
+
+Print Assumptions C04_dc_quads_are_boundary_edges.
+Print Assumptions C04_dc_covers_allows_spare_edges.
+Print Assumptions C04_dc_separates_inside_from_outside.
+Print Assumptions C04_dc_orientation.
+Print Assumptions C04_sign_change_has_zero.
+Print Assumptions C04_continuous_fields_qualify.
+Print Assumptions C04_vertices_near_surface.
+Print Assumptions C04_thin_feature_invisible.
+Print Assumptions C04_boundary_examples.
+Print Assumptions C04_geometric_example.
